@@ -4,7 +4,9 @@ import framework, tlc, e1
 
 LEVEL = 'model_checking'
 
-MATCHERS = ['wl_surface', 'x(title="a b")', '(="a\\b")', '.commit, wl_pointer ! .motion', 'B: 7c', '[wl_pointer ! 55, 62].motion',
+# (values that begin with characters an argument parser may treat specially: @ = the tool's own way of writing an object id,
+# + and - , = )
+MATCHERS = ['wl_surface', '@6', '@6.bind', '@2a, wl_pointer', 'x(title="a b")', '(="a\\b")', '.commit, wl_pointer ! .motion', 'B: 7c', '[wl_pointer ! 55, 62].motion',
             '(="C:\\dir\\new")', "(=\"it's\")", '(="tab\\t")', '*', '!', '(x=0, y=0)', '(="say \\"hi\\"")'.replace('\\"', ''), '(="back\\\\slash")']
 BADMATCHERS = ['a.b.c', 'wl_surface@5', '(x', 'a ! b ! c']
 CONCRETE = {
@@ -12,7 +14,7 @@ CONCRETE = {
     'pipe': [['-p'], ['--pipe']],
     # (an empty value still selects the mode: `-l "" -r prog` is two modes)
     'load': [['-l', '/tmp/x.log'], ['--load', 'a b.log'], ['-l', 'C:\\logs\\w.log'], ['-l', 'q"uote.log'], ['-l', ''], ['--load', ''], ['--load='],
-             ['--load=x.log']],
+             ['--load=x.log'], ['-l', '@args.log'], ['--load', '+x']],
     'filt': [[o, m] for o in ('-f', '--filter') for m in MATCHERS],
     'filtbad': [[o, m] for o in ('-f', '--filter') for m in BADMATCHERS],
     'brk': [[o, m] for o in ('-b', '--break') for m in MATCHERS[:6]],
